@@ -219,11 +219,12 @@ class Prefixed(BaseModel):
         return hash(self._value())
 
     def __int__(self) -> int:
-        return int(self.number) * 10**self.prefix.value
+        """Convert to int: the integer part of the value"""
+        return int(self._value())
 
     def __float__(self) -> float:
-        """Convert to float"""
-        return float(self.number) * 10**self.prefix.value
+        """Convert to float: the float nearest to the value"""
+        return float(self._value())
 
     def __neg__(self) -> "Prefixed":
         return Prefixed.new(-self.number, self.prefix)
